@@ -109,3 +109,8 @@ class Kill(Command):
                 props['signum'] = to_signum(props['signum'])
         except ValueError:
             raise MessageError('signal invalid')
+        if props.get('graceful_timeout') is not None:
+            try:
+                props['graceful_timeout'] = float(props['graceful_timeout'])
+            except (TypeError, ValueError):
+                raise MessageError('graceful_timeout invalid')
